@@ -134,22 +134,7 @@ def label(spec):
 
 
 # ----------------------------------------------------------------------------- judging
-def classify(io, v):
-    """-> (class, signature, text)"""
-    res = v.get("res", "BADCASE:no-verdict")
-    if io.startswith("abort:"):
-        return "fail", io, "implementation aborts (%s); model: %s" % (io[6:], v.get("model", "?"))
-    if res == "ok":
-        return "ok", None, ""
-    if res.startswith("SKIP:"):
-        return "skip", res[5:].split()[0], res
-    if res.startswith("MODEL-ERR:"):
-        return "fail", "ub:" + res[len("MODEL-ERR:"):].split(":")[0], "model reaches an undefined-behaviour state (%s) but the implementation returned" % res
-    if res.startswith("FAIL:"):
-        return "fail", res[5:].split(":")[0] + ":" + (res[5:].split(":")[1].split("(")[0].split()[0] if ":" in res[5:] else ""), v["_line"]
-    if res.startswith("BROKEN:"):
-        return "broken", res[7:].split()[0], v["_line"]
-    return "broken", "driver:" + res.split(":")[0], v["_line"]
+classify = _ll.classify
 
 
 def what_text(spec, cls, text):
@@ -278,8 +263,7 @@ def replay_case(ctx, replay):
 
 
 def correspond(ctx):
-    binary, log = ctx.build_harness("c08_ll.cpp", name=_ll.harness_name("c08_ll.cpp"), extra=["-DV0810_HASH=" + _ll.hdr_hash()],
-                                    flags=_ll.harness_flags())
+    binary, routines_ok, log = _ll.build_with_fallback(ctx, "c08_ll.cpp")
     t_built = ctx_elapsed(ctx)
     if not binary:
         ctx.broken("harness-build", "harness c08_ll.cpp", "harness does not compile against the repository: " + log[-1500:])
@@ -318,6 +302,9 @@ def correspond(ctx):
     for _ in range(4 if quick else 40):
         for m, dd in (("kltsa", 1), ("kltsa", 2), ("hlle", 1), ("hlle", 2)):
             specs.append(make_spec(rr.fork(), "embed", m, quick, force={"kind": "flat%d" % dd, "d": dd, "kern": "linear", "D": rr.choice([dd + 1, dd + 2, 5])}))
+    if not routines_ok:
+        ctx.stat("routine-level-cases-dropped", len([s for s in specs if s["op"] != "embed"]))
+        specs = [s for s in specs if s["op"] == "embed"]
     batch = 40
     for i in range(0, len(specs), batch):
         judge(ctx, binary, specs[i:i + batch])
